@@ -896,7 +896,9 @@ static CPS invalid_ingredient() {
     if (k < 76) return {*gg::rng(0xD800, 0xDBFF)};
     if (k < 84) return {*gg::rng(0xDC00, 0xDFFF)};
     if (k < 90) return {*gg::rng(0xDC00, 0xDFFF), *gg::rng(0xD800, 0xDBFF)};   // reversed pair
-    if (k < 95) return {0xFEFF};                                       // unconstrained
+    if (k < 93) return {0xFEFF};                                       // unconstrained
+    if (k < 96) return {*gg::rng(0xD800, 0xDBFF), *gg::rng(0xD800, 0xDBFF)};                                      // two high surrogates in a row
+    if (k < 98) return {*gg::rng(0xD800, 0xDBFF), *gg::rng(0xD800, 0xDBFF), (uint32_t) 'b'};                      // ... followed by an ordinary character
     return {*gg::rng(0xD800, 0xDBFF), (uint32_t) 'a'};                // high surrogate followed by a non-surrogate
 }
 static CaseFile build_valid() {
